@@ -19,6 +19,7 @@ mod probes;
 mod gcprobe;
 mod vmgen;
 mod vmrun;
+mod c17;
 
 use std::path::PathBuf;
 
@@ -67,6 +68,7 @@ fn main() {
         ("gen", "C19") => c19::gen(&a),
         ("gen", "VM") | ("gen", "C03") => vmrun::gen(&a),
         ("replay", "VM") => vmrun::replay(&a),
+        ("gen", "C17") => c17::gen(&a),
         _ => { eprintln!("unknown command/property"); std::process::exit(2); }
     }
 }
